@@ -76,6 +76,9 @@ type SOp struct {
 	// "pdrop_window" = a partition's drop message has been read on every shard in this incarnation and no drop request
 	// for it has reached the downstream yet
 	Gate string `json:"gate,omitempty"`
+	// AfterHist: the request is issued only once this many further events of the source history have been published since
+	// the previous request was answered (or the history is used up): a task that stays paused for a while
+	AfterHist int `json:"after_hist,omitempty"`
 }
 
 type SColl struct {
@@ -430,6 +433,14 @@ func genSOps(rng *Rng, sc *SScript, prop string) {
 		}
 		if rng.Pct(15) {
 			sc.ConnFaults = []int{rng.Range(0, 5)}
+		}
+		if prop != "C03" && rng.Pct(35) {
+			// the task stays paused while the source goes on
+			for i := range sc.Ops {
+				if sc.Ops[i].K == "resume" {
+					sc.Ops[i].AfterHist = rng.Range(2, 8)
+				}
+			}
 		}
 		if sc.Directed == "pdrop_queue" {
 			sc.Ops = []SOp{
